@@ -328,8 +328,8 @@ func (c *c17gen) next() string {
 		} else if ok {
 			// delete an existing record
 			cf := d.Configs[g.Intn(len(d.Configs))]
-			ch = atoi(c.h.cfgChain(cf.ChainId))
-			path = atoi(c.h.pathID(cf.Path))
+			ch = c17atoi(c.h.cfgChain(cf.ChainId))
+			path = c17atoi(c.h.pathID(cf.Path))
 		}
 		return fmt.Sprintf("ura %d %d %d %d %d %s", a, n, ch, e, path, val)
 	case "det":
@@ -413,7 +413,7 @@ func (c *c17gen) next() string {
 		}
 		a := c.acct()
 		tf := strings.Fields(tgt)
-		i := atoi(tf[1])
+		i := c17atoi(tf[1])
 		if valid {
 			var parties []int
 			if tf[0] == "n" {
